@@ -739,14 +739,16 @@ def wide_cost(desc):
 
 
 def _pair_graphs_quick(reps):
-    """Quick tier: ordered pairs in lists, unordered pairs (with the diagonal) in dicts, unordered distinct
-    hashable pairs in sets, the diagonal in tuples (tuples share the list decoder)."""
+    """Quick tier: unordered pairs (with the diagonal) in lists and dicts, plus the reversed order whenever the
+    second member is the numeric representative; unordered distinct hashable pairs in sets; the diagonal in
+    tuples (tuples share the list decoder). Thorough: every ordered pair in every container kind."""
     names = list(reps)
     out = []
     for i, a in enumerate(names):
         for j, b in enumerate(names):
             da, db = reps[a], reps[b]
-            out.append(O("Root", x=CK("list", da, db)))
+            if i <= j or b == "int":
+                out.append(O("Root", x=CK("list", da, db)))
             if i <= j:
                 out.append(O("Root", x=CK("dict", da, db)))
             if i == j:
